@@ -610,9 +610,11 @@ func ruleC07Never(w *World, r *Report) {
 		rel := w.Fn("C07", "pfcpiface.releaseAllocatedTEIDs")
 		free := w.Fn("C07", "pfcpiface.(*FTEIDGenerator).FreeID")
 		m := 0
-		for _, c := range callsTo(rel, free) {
+		// (the decision may be taken where the TEID is put on a local list that a second loop frees entirely)
+		relSites, _ := teidReleaseSites(rel, free)
+		for _, si := range relSites {
 			m++
-			si := c.(ssa.Instruction)
+			c := si
 			g := onlyVia(rel, si, func(a, b *ssa.BasicBlock) bool {
 				v, truth, ok := boolEdge(a, b)
 				return ok && truth && strings.HasSuffix(symOf(v).String(), "UPAllocateFteid")
